@@ -2,6 +2,7 @@ package edf
 
 import (
 	"encoding/binary"
+	"errors"
 	"fmt"
 	"math"
 	"reflect"
@@ -1201,7 +1202,7 @@ func decodeError(value *reflect.Value, packet []byte, state *stateDecode) (*refl
 		if len(packet) < l {
 			return nil, nil, errDecodeEOD
 		}
-		err = fmt.Errorf(string(packet[:l]))
+		err = errors.New(string(packet[:l]))
 		packet = packet[l:]
 	}
 
